@@ -29,22 +29,29 @@ TIERS = {
 }
 RULE = ("cases 0..K-1 enumerate completely: every native name the binder "
         "knows x {no alias, fresh alias, alias of an existing secure name, "
-        "alias `run`} x 12 path-like/command-like call shapes; every symbol "
-        "of every bundled module x {require, require as, unqualified, "
-        "import [sym as alias]} x call shapes; every syntactic binding form "
-        "applied to checkerlang_secure_mode (also via eval/parse and from "
-        "inside a user module) followed by the OS-touching natives and a "
-        "behavioural read of the flag from a freshly loaded module; a crawl "
-        "of every function value reachable from the environments; all in "
-        "the legacy and non-legacy configuration. Cases >= K are seeded "
+        "alias `run`, native's own name pre-defined, harmless native first "
+        "bound under this native's name} x 15 path-like/command-like/"
+        "callback call shapes; every symbol of every bundled module x "
+        "{require, require as, unqualified, import [sym as alias]} x call "
+        "shapes; every syntactic binding form applied to "
+        "checkerlang_secure_mode (also via eval/parse, from inside a user "
+        "module and at the top level of a caller-supplied environment) "
+        "followed by the OS-touching natives and a behavioural read of the "
+        "flag from a freshly loaded module; closures created in a caller-"
+        "supplied environment and invoked later (detached-scope attacks); a "
+        "crawl of every function value reachable from the environments; all "
+        "in the legacy and non-legacy configuration. Cases >= K are seeded "
         "sessions of 5-40 such commands on a secure instance interleaved "
-        "with a non-secure instance doing real file/process work, with "
-        "failing calls, faulted requires and step faults. One evaluation = "
-        "one command executed on the secure instance under the OS monitor; "
-        "distinct = distinct (command template, alias mode, configuration, "
-        "call shape) plus distinct session fingerprints; non-trivial = the "
-        "command attempts an OS-touching operation by name, alias, module "
-        "member or reachable value")
+        "(either creation order) with a non-secure instance doing real "
+        "file/process work, sharing caller-supplied environments and "
+        "identical script texts with it, with user modules named like "
+        "bundled ones, failing calls, faulted requires, step faults and a "
+        "second secure interpreter created late in the life of the process. "
+        "One evaluation = one command executed on a secure instance under "
+        "the OS monitor; distinct = distinct (command text, configuration) "
+        "plus distinct session fingerprints; non-trivial = the command "
+        "attempts an OS-touching operation by name, alias, module member or "
+        "reachable value")
 REAL = ["ckl.functions (binder, all natives)", "ckl.nodes (NodeAssign guard, "
         "NodeRequire)", "ckl.interpreter.Interpreter (secure and non-secure "
         "instances in one process)", "all bundled .ckl modules"]
@@ -64,7 +71,7 @@ REQUIRED_PROBES = {
               "crawl_functions_invoked", "interleaved_nonsecure_effects",
               "secure_allowed_module_read", "flag_probe_read",
               "nonsecure_created_first", "env_shared_with_nonsecure",
-              "detached_scope_calls"],
+              "detached_scope_calls", "secure_interpreter_created_late"],
 }
 REQUIRED_PROBES["thorough"] = REQUIRED_PROBES["quick"]
 
@@ -429,11 +436,17 @@ def gen_session(rng, tier):
         "def tryit(p) do file_delete(p); end;\n"
         "def flag = checkerlang_secure_mode;\n")}
     files[f"{MOD_HOME}/ubad.ckl"] = {"text": "def x = ;\n"}
+    evil = ("def checkerlang_secure_mode = FALSE;\n"
+            "bind_native('file_delete');\nbind_native('execute');\n"
+            "bind_native('file_exists');\ndef PS = '/';\n")
+    for nm in ("OS", "IO", "Sys", "os", "io"):
+        files[f"{MOD_HOME}/{nm}.ckl"] = {"text": evil}
     files[f"{MOD_HOME}/ufail.ckl"] = {"text": (
         "bind_native('file_output');\nerror 'nope';\n")}
     ops = []
     nprobe = 0
     attacks = flag_attacks()
+    need_late = [False]
     nops = rng.randrange(5, 41)
     wseq = 0
     for _ in range(nops):
@@ -456,6 +469,10 @@ def gen_session(rng, tier):
                 f"def i_ = file_input('{CAN}/f2.txt'); read_all(i_)",
                 f"require umod; umod->flag",
                 f"run('{CAN}/s.ckl')",
+                # the very text the secure instance will also evaluate
+                "require IO; require OS; require Sys",
+                "require IO; require OS; require Sys",
+                "require OS unqualified",
             ])
             if rng.random() < 0.25:
                 src = rng.choice(["def x = ;", "1 / 0", "error 'n'",
@@ -506,7 +523,7 @@ def gen_session(rng, tier):
                         f"[{s} as iz_{s}]", "tag": "req"}]
                 F = f"iz_{s}"
             new += rng.sample(invoke_ops(F), 2)
-        elif r < 0.80:
+        elif r < 0.78:
             atk = rng.choice(attacks)
             new = [{"inst": "S", "src": atk, "tag": "flag-attack"}]
             new += rng.sample(os_native_ops(("", "fe_")), 4)
@@ -515,6 +532,23 @@ def gen_session(rng, tier):
                 new = [dict(o, env=en) for o in new]
             new += flag_probe_ops(nprobe % 12)
             nprobe += 1
+        elif r < 0.80:
+            # identical script text (and file name) as the neighbour uses
+            new = [{"inst": "S", "src": rng.choice([
+                "require IO; require OS; require Sys",
+                "require OS unqualified"]), "tag": "req"}]
+            new += rng.sample(invoke_ops("IO->file_input") +
+                              invoke_ops("OS->file_delete") +
+                              invoke_ops("OS->execute") +
+                              invoke_ops("file_exists"), 4)
+        elif r < 0.82:
+            # a user module whose file name collides with a bundled module
+            new = [{"inst": "S", "src": rng.choice([
+                "require 'vendor/OS'", "require 'vendor/IO.ckl'",
+                "require 'x/Sys'", "require 'vendor/OS' unqualified"]),
+                "tag": "usermod"}]
+            new += rng.sample(os_native_ops(), 3)
+            need_late[0] = True
         elif r < 0.84:
             new = detached_ops(rng.choice(detached_attacks()),
                                "DE" + str(rng.randrange(3)))
@@ -560,6 +594,23 @@ def gen_session(rng, tier):
                 o["env"] = senv
             ops.append(o)
     ops += flag_probe_ops(nprobe % 12)
+    if rng.random() < 0.5 or need_late[0]:
+        # a second secure interpreter is created late in the life of the
+        # process, after everything above has happened, and is attacked too
+        at = rng.randrange(len(ops) // 2, len(ops) + 1)
+        if need_late[0]:
+            at = len(ops)
+        late = [{"kind": "spawn", "inst": "S2", "src": "",
+                 "legacy": rng.random() < (0.9 if need_late[0] else 0.6),
+                 "tag": "spawn"}]
+        late += [dict(o, inst="S2") for o in os_native_ops()[:30]]
+        late += [{"inst": "S2", "src": "require OS; require IO; "
+                  "[OS->file_exists(" + P1 + ")]", "tag": "req"}]
+        late += [dict(o, inst="S2") for o in
+                 invoke_ops("OS->file_delete")[:4]
+                 + invoke_ops("IO->file_input")[:3]]
+        late += [dict(o, inst="S2") for o in flag_probe_ops(11)]
+        ops[at:at] = late
     return {"config": cfg, "files": files, "ops": ops}
 
 
@@ -641,14 +692,21 @@ def run_case(case, root):
         nshape = 0
         for idx, op in enumerate(case["ops"]):
             inst = op.get("inst", "S")
+            if op.get("kind") == "spawn":
+                if inst not in sim.inst:
+                    sim.new_interpreter(inst, True, op.get("legacy", False))
+                    probes["secure_interpreter_created_late"] = 1
+                continue
             if inst == "N" and N is None:
                 continue
-            it = S if inst == "S" else N
+            if inst not in sim.inst:
+                continue
+            it = sim.inst[inst]
             n_ev = len(w.trace)
             if op.get("kind") == "crawl":
-                if inst != "S":
+                if not inst.startswith("S"):
                     continue
-                ninv = crawl_and_invoke(sim, S, idx, probes)
+                ninv = crawl_and_invoke(sim, it, idx, probes, inst)
                 probes["crawl_functions_invoked"] = probes.get(
                     "crawl_functions_invoked", 0) + ninv
                 out = {"kind": "val", "val": f"crawled {ninv}",
@@ -697,7 +755,7 @@ def run_case(case, root):
                 # runs out of budget has simply not been allowed anything
                 probes["budget_hit"] = probes.get("budget_hit", 0) + 1
             for e in evs:
-                if e[1] != "S":
+                if not e[1].startswith("S"):
                     continue
                 if e[2] in ("open", "stat", "fsread") and \
                         allowed_for_secure(e, moddirs):
@@ -777,7 +835,7 @@ def run_case(case, root):
 SHAPE_TAGS = {t for t, _ in SHAPES}
 
 
-def crawl_and_invoke(sim, S, idx, probes):
+def crawl_and_invoke(sim, S, idx, probes, actor="S"):
     """collect every function value reachable from the interpreter's
     environments and invoke it with the path-like call shapes"""
     from ckl.values import (ValueFunc, ValueObject, ValueList, ValueSet,
@@ -832,7 +890,7 @@ def crawl_and_invoke(sim, S, idx, probes):
         S.environment.put("crawl_f_", fn)
         for tag, tpl in SHAPES[:7]:
             src = tpl.replace("{F}", "crawl_f_")
-            sim.run(idx, "S", [], lambda: S.interpret(src, "crawl"))
+            sim.run(idx, actor, [], lambda: S.interpret(src, "crawl"))
             n += 1
     S.environment.remove("crawl_f_")
     return len(funcs)
